@@ -41,6 +41,14 @@ def build(desc, seed=0, via=None, **ctor_kw):
     pts, w, pw = net_points(desc, seed)
     P = copy.deepcopy(pw if desc['rational'] else pts)
     kv_args = [list(kv) for kv in desc['kvs']]
+    # input types (DESIGN §6 wave 5): the documented setters take lists or tuples; integer-valued numbers may arrive as ints
+    it = desc.get('input_types')
+    if it == 'tuples':
+        P = tuple(tuple(p) for p in P)
+        kv_args = [tuple(kv) for kv in kv_args]
+    elif it == 'ints':
+        P = [[int(c) if float(c).is_integer() else c for c in p] for p in P]
+        kv_args = [[int(k) if float(k).is_integer() else k for k in kv] for kv in kv_args]
     if pd == 1:
         obj.degree = desc['degrees'][0]
         obj.set_ctrlpts(P)
@@ -59,11 +67,12 @@ def build(desc, seed=0, via=None, **ctor_kw):
     # The caller owns the lists it passed in: overwrite them now.  A shape that kept a reference to an argument instead of
     # its own copy is then visibly broken in every check that uses this builder.  (With normalize_kv=False the knot vector
     # setters are documented to store the given list, so those lists are left alone.)
-    for p in P:
-        for j in range(len(p)):
-            p[j] = -123.25 - j
-    del P[len(P) // 2:]
-    if desc.get('normalize_kv', True) and 'normalize_kv' not in ctor_kw:
+    if it != 'tuples':
+        for p in P:
+            for j in range(len(p)):
+                p[j] = -123.25 - j
+        del P[len(P) // 2:]
+    if desc.get('normalize_kv', True) and 'normalize_kv' not in ctor_kw and it != 'tuples':
         for kv in kv_args:
             for j in range(len(kv)):
                 kv[j] = 0.5
